@@ -171,7 +171,9 @@ def triggers(side, lay, cuts):
       first_line_crlf_cut a read ended between the CR and the LF that end the first line
       bodiless_status     (client) 204 / 304 response
       until_close         the body is delimited by the closing of the connection
-      last_chunk_cut      a read ended behind the size line of the last chunk, before the end"""
+      last_chunk_cut      a read ended behind the size line of the last chunk, before the end
+      te_not_lowercase    chunked body announced with a spelling other than the lower-case token
+                          (`Transfer-Encoding: Chunked`)"""
     cuts = set(cuts)
     return {
         'empty_header_block': (not lay['hdrs']) and total(lay) > hdr_end(lay),
@@ -179,6 +181,7 @@ def triggers(side, lay, cuts):
         'bodiless_status': side == 'client' and lay.get('status') in (204, 304),
         'until_close': lay['body'] == 'close',
         'last_chunk_cut': lay['body'] == 'chunked' and any(last_size_end(lay) <= c < total(lay) for c in cuts),
+        'te_not_lowercase': lay['body'] == 'chunked' and not lay.get('telower', True),
     }
 
 
@@ -221,6 +224,50 @@ def framing_header(body):
     return []
 
 
+CONSULTED = (b'content-length', b'transfer-encoding', b'connection')     # header fields the framing code looks at
+
+
+def spell(headers, how):
+    """Respell header lines in one of the ways RFC 7230 makes equivalent (mirror
+    of SpTag in HttpFraming.tla): 'lower' / 'upper' field names (upper: also the
+    chunked / keep-alive tokens), 'mixed' = Capitalised tokens, 'ows' = optional
+    whitespace (HT before, SP behind the value) on the consulted fields."""
+    if how == 'canon':
+        return list(headers)
+    out = []
+    for h in headers:
+        if h[:1] in (b' ', b'\t') or b':' not in h:
+            out.append(h)
+            continue
+        name, value = h.split(b':', 1)
+        consulted = name.lower() in CONSULTED
+        token = consulted and name.lower() != b'content-length'
+        if how == 'lower':
+            name = name.lower()
+        elif how == 'upper':
+            name = name.upper()
+            if token:
+                value = value.upper()
+        elif how == 'mixed':
+            if token:
+                value = b' ' + b'-'.join(w.capitalize() for w in value.strip().split(b'-'))
+        elif how == 'ows':
+            if consulted:
+                value = b' \t' + value.strip() + b' '
+        else:
+            raise RealiseError(how)
+        out.append(name + b':' + value)
+    return out
+
+
+def te_lower(headers):
+    """True unless a Transfer-Encoding field spells its coding other than `chunked`."""
+    for h in headers:
+        if b':' in h and h.split(b':', 1)[0].strip().lower() == b'transfer-encoding':
+            return h.split(b':', 1)[1].strip() == b'chunked'
+    return True
+
+
 def from_grammar(g):
     """g: a layout record of the TLA+ grammar (as parsed from TLC's output).
     Returns (bytes, layout) with layout = g's numbers + status/ver/ka + tags."""
@@ -234,18 +281,22 @@ def from_grammar(g):
         first = ver + b' ' + RESP_LINE[g['ltag']]
         headers = list(RESP_HDRS[g['htag']])
     headers += framing_header(body)
+    headers = spell(headers, g['stag'])
     data, lay = compose(first, headers, body)
+    tag = '%s/%s/%s/%d/%s' % (g['ltag'], g['htag'], g['btag'], g['ver'], g['stag'])
     for k in LAYOUT_KEYS:
         if lay[k] != g[k]:
-            raise RealiseError('grammar layout %s/%s/%s/%s: %s is %r in the bytes, %r in HttpFraming.tla'
-                               % (g['ltag'], g['htag'], g['btag'], g['ver'], k, lay[k], g[k]))
-    lay.update(status=g['status'], ver=g['ver'], ka=bool(g['ka']), tag='%s/%s/%s/%d' % (g['ltag'], g['htag'], g['btag'], g['ver']))
+            raise RealiseError('grammar layout %s: %s is %r in the bytes, %r in HttpFraming.tla' % (tag, k, lay[k], g[k]))
+    if te_lower(headers) != bool(g['telower']) and g['body'] == 'chunked':
+        raise RealiseError('grammar layout %s: telower is %r in HttpFraming.tla' % (tag, g['telower']))
+    lay.update(status=g['status'], ver=g['ver'], ka=bool(g['ka']), telower=te_lower(headers), tag=tag)
     return data, lay
 
 
 # -- seeded random layouts ------------------------------------------------------
 
 _TOKEN = 'abcdefghijklmnopqrstuvwxyzABCDEFGHIJKLMNOPQRSTUVWXYZ0123456789'
+SPELLINGS = ['canon', 'canon', 'canon', 'lower', 'upper', 'mixed', 'ows']
 
 
 def _tok(rnd, lo, hi):
@@ -308,8 +359,9 @@ def random_request(rnd, keepalive):
     while pos < len(headers) and headers[pos][:1] in (b' ', b'\t'):     # never between a field and its continuation
         pos += 1
     headers[pos:pos] = fh
+    headers = spell(headers, rnd.choice(SPELLINGS))
     data, lay = compose(first, headers, body)
-    lay.update(status=0, ver=ver, ka=keepalive, tag='random')
+    lay.update(status=0, ver=ver, ka=keepalive, telower=te_lower(headers), tag='random')
     return data, lay
 
 
@@ -329,8 +381,9 @@ def random_response(rnd, keepalive):
     while pos < len(headers) and headers[pos][:1] in (b' ', b'\t'):
         pos += 1
     headers[pos:pos] = fh
+    headers = spell(headers, rnd.choice(SPELLINGS))
     data, lay = compose(first, headers, body)
-    lay.update(status=status, ver=ver, ka=(body[0] != 'close'), tag='random')
+    lay.update(status=status, ver=ver, ka=(body[0] != 'close'), telower=te_lower(headers), tag='random')
     return data, lay
 
 
